@@ -45,8 +45,8 @@ Snap(t, e) ==
   /\ Quiescent(Set(e.gated))
   /\ (e.used >= 0 => e.used = used)
   /\ \A i \in 1..Len(e.uused) : uused[e.uused[i][1]] = e.uused[i][2]
-  /\ (UsePool => Len(e.pool) = Cardinality(pool) /\ Set(e.pool) = PoolPorts)
-  /\ Set(e.table) = table
+  /\ (UsePool /\ e.haspool => Len(e.pool) = Cardinality(pool) /\ Set(e.pool) = PoolPorts)
+  /\ (e.hastable => Set(e.table) = table)
   /\ \A s \in Sessions : DSocks(s) = Cardinality({i \in 1..Len(e.dsock) : e.dsock[i] = s})
   /\ \A s \in Sessions : Files(s) = Cardinality({i \in 1..Len(e.files) : e.files[i] = s})
   /\ Pairs(e.lsn) = UNION {{<<s, p>> : p \in Lsns(s)} : s \in Sessions}
@@ -64,7 +64,7 @@ Step(e) ==
     [] e.ev = "Vanish"      -> Vanish(e.s, e.t)
     [] e.ev = "ServerClose" -> ServerClose(e.t)
     [] e.ev = "Tick"        -> Tick(e.t)
-    [] e.ev = "Reply"       -> ReplyEv(e.s, e.t, e.code)
+    [] e.ev = "Reply"       -> ReplyEv(e.s, e.t, e.code) /\ PayloadOk(e.s, e.code, e)
     [] e.ev = "FsMut"       -> FsMut(e.s, e.t, e.op, e.p, e.q, e.res)
     [] e.ev = "FsQuery"     -> FsQuery(e.s, e.t, e.p, e.res)
     [] e.ev = "FsFile"      -> FsFile(e.s, e.t, e.op, e.p, e.res, e.mode, e.off, e.data)
